@@ -351,6 +351,22 @@ theorem drop_loudsOfSizes (sizes : List Nat) (n : Nat) (hpos : ∀ s ∈ sizes, 
       rw [e, ← List.drop_drop, List.drop_left' (by simp)]
       exact ih'
 
+/-- `nodeSize` whenever the early exit `wordOff >= len(v.bits)` of `DistanceToNextSetBit` is not taken -/
+theorem distNext_loudsOfSizes_guard (sizes : List Nat) (n : Nat) (hpos : ∀ s ∈ sizes, 1 ≤ s) (hn : n < sizes.length)
+    (hguard : ¬ ((sizes.take n).sum + 1) / wordSize ≥ (sizes.sum + wordSize - 1) / wordSize) :
+    distNext (loudsOfSizes sizes) ((sizes.take n).sum) = sizes[n] := by
+  unfold distNext
+  rw [length_loudsOfSizes]
+  simp only [hguard, if_false]
+  rw [drop_loudsOfSizes sizes n hpos hn, leadingZeros_replicate]
+  · have := hpos sizes[n] (List.getElem_mem hn)
+    omega
+  · cases hd : sizes.drop (n + 1) with
+    | nil => simp [loudsOfSizes]
+    | cons s' r' =>
+      have hs' : 1 ≤ s' := hpos s' (List.mem_of_mem_drop (by rw [hd]; exact List.mem_cons_self ..))
+      rw [head_loudsOfSizes s' r' hs']; simp
+
 /-- `nodeSize`: the distance from a node's first label to the next set bit is the node's size
 (the very last bit of the vector is excluded: there the Go code may take its early exit) -/
 theorem distNext_loudsOfSizes (sizes : List Nat) (n : Nat) (hpos : ∀ s ∈ sizes, 1 ≤ s) (hn : n < sizes.length)
@@ -370,5 +386,65 @@ theorem distNext_loudsOfSizes (sizes : List Nat) (n : Nat) (hpos : ∀ s ∈ siz
     | cons s' r' =>
       have hs' : 1 ≤ s' := hpos s' (List.mem_of_mem_drop (by rw [hd]; exact List.mem_cons_self ..))
       rw [head_loudsOfSizes s' r' hs']; simp
+
+theorem sum_take_add_le (sizes : List Nat) (n : Nat) (hn : n < sizes.length) :
+    (sizes.take n).sum + sizes[n] ≤ sizes.sum := by
+  induction sizes generalizing n with
+  | nil => simp at hn
+  | cons s rest ih =>
+    cases n with
+    | zero => simp
+    | succ j =>
+      have := ih j (by simpa using hn)
+      simp only [List.take_succ_cons, List.sum_cons, List.getElem_cons_succ]
+      omega
+
+theorem sum_split (sizes : List Nat) (n : Nat) (hn : n < sizes.length) :
+    sizes.sum = (sizes.take n).sum + sizes[n] + (sizes.drop (n + 1)).sum := by
+  induction sizes generalizing n with
+  | nil => simp at hn
+  | cons s rest ih =>
+    cases n with
+    | zero => simp
+    | succ j =>
+      have := ih j (by simpa using hn)
+      simp only [List.take_succ_cons, List.sum_cons, List.getElem_cons_succ, List.drop_succ_cons]
+      omega
+
+/-- the bit after a node's first label is set (or the vector ends) exactly when the node has
+one label -/
+theorem louds_after_first (sizes : List Nat) (n : Nat) (hpos : ∀ s ∈ sizes, 1 ≤ s) (hn : n < sizes.length) :
+    (((sizes.take n).sum == (loudsOfSizes sizes).length - 1) ||
+      (loudsOfSizes sizes).getD ((sizes.take n).sum + 1) false) = (sizes[n] == 1) := by
+  have hle := sum_take_add_le sizes n hn
+  have hs := hpos sizes[n] (List.getElem_mem hn)
+  have hdrop := drop_loudsOfSizes sizes n hpos hn
+  have hgetD : (loudsOfSizes sizes).getD ((sizes.take n).sum + 1) false =
+      (List.replicate (sizes[n] - 1) false ++ loudsOfSizes (sizes.drop (n + 1))).getD 0 false := by
+    rw [← hdrop, List.getD_eq_getElem?_getD, List.getD_eq_getElem?_getD, List.getElem?_drop]
+  rw [hgetD, length_loudsOfSizes]
+  by_cases h1 : sizes[n] = 1
+  · rw [h1]
+    simp only [Nat.sub_self, List.replicate_zero, List.nil_append, beq_self_eq_true]
+    cases hd : sizes.drop (n + 1) with
+    | nil =>
+      have hsum : sizes.sum = (sizes.take n).sum + sizes[n] := by
+        have := sum_split sizes n hn
+        rw [hd] at this
+        simpa using this
+      have : ((sizes.take n).sum == sizes.sum - 1) = true := by
+        rw [hsum, h1]; simp
+      simp [this]
+    | cons s' r' =>
+      have hs' : 1 ≤ s' := hpos s' (List.mem_of_mem_drop (by rw [hd]; exact List.mem_cons_self ..))
+      obtain ⟨m, rfl⟩ : ∃ m, s' = m + 1 := ⟨s' - 1, by omega⟩
+      rw [loudsOfSizes_cons]; simp
+  · have hge : 2 ≤ sizes[n] := by omega
+    have hne : ((sizes.take n).sum == sizes.sum - 1) = false := by
+      simp; omega
+    have hbeq : (sizes[n] == 1) = false := by simp [h1]
+    rw [hne, hbeq]
+    obtain ⟨m, hm⟩ : ∃ m, sizes[n] - 1 = m + 1 := ⟨sizes[n] - 2, by omega⟩
+    rw [hm, List.replicate_succ]; simp
 
 end LinVerif.Lemmas.C20
